@@ -87,3 +87,18 @@ Definition family_thorough : list case :=
   flat_map (fun k => flat_map (fun mask => flat_map (fun ctx : str * str =>
      mk (fst ctx) (snd ctx) mask k (fixed_values [lit "s3cret"])) [([], []); (lit "run ", lit " ok"); ([97; 10], [9; 122; 32; 49])])
      [lit "***"; lit "?"]) spec_keys_35.
+
+(* many secrets in one message (same key, same rendering, four values): a substitution that stops
+   after a fixed number of matches would leave the later ones in clear text *)
+Definition multi_vals : list str := [[97]; [98; 50]; [99; 94]; [100; 233]].
+Definition multi_case := (str * (str * str))%type.        (* message, expected, mask *)
+Definition mk_multi (mask : str) (r : rend) : multi_case :=
+  let vs := filter (forallb (fst r)) multi_vals in
+  (flat_map (fun v => fst (snd r) ++ v ++ snd (snd r) ++ [32; 49; 32]) vs,
+   (flat_map (fun v => fst (snd r) ++ mask ++ snd (snd r) ++ [32; 49; 32]) vs, mask)).
+Definition family_multi : list multi_case :=
+  flat_map (fun KD => map (mk_multi (lit "***")) (renderings KD))
+           [lit "password"; lit "TOKEN"; lit "Sslkey7"; lit "auth_password"].
+Definition check_multi_with (f : str -> str -> str) (z : str -> bool) (c : multi_case) : bool :=
+  z (fst c) || (beq (f (fst c) (snd (snd c))) (fst (snd c)) && beq (f (fst (snd c)) (snd (snd c))) (fst (snd c))).
+Definition check_multi (c : multi_case) : bool := check_multi_with mask_password in_zone c.
